@@ -243,6 +243,7 @@ fn replay(path: &str) -> i32 {
                 "C14" => props_sched::c14_families(tier),
                 "C15" => props_sched::c15_families(tier),
                 "C01" => props_sched::c01_families(tier),
+                "C05" => props_sched::c05_families(tier),
                 _ => vec![],
             };
             let fam = match fams.iter().find(|f| Some(f.name.as_str()) == v["family"].as_str()) {
@@ -345,7 +346,12 @@ fn main() {
                 "C02" => check_seq("C02", tier),
                 "C03" => check_sched::check("C03", tier, props_sched::c03_families(tier), &["linearizable", "no-panic"], nthreads()),
                 "C04" => check_sched::check("C04", tier, props_sched::c04_families(tier), &["linearizable", "no-panic"], nthreads()),
-                "C05" => check_seq("C05", tier),
+                "C05" => {
+                    let a = check_seq("C05", tier);
+                    let b = check_sched::check("C05", tier, props_sched::c05_families(tier), &["linearizable", "no-panic", "deadlock", "livelock"], nthreads());
+                    let t = a.tier.clone();
+                    report::merge("C05", &t, vec![("sequential_histories", a), ("expired_item_under_concurrent_collection_all_schedules", b)])
+                }
                 "C16" => check_sched::check("C16", tier, props_sched::c16_families(tier), &["deadlock", "livelock"], nthreads()),
                 "C14c" => check_sched::check("C14", tier, props_sched::c14_families(tier), &["over-limit", "over-limit-after-race", "over-limit-after-quiet-race", "deadlock", "livelock", "no-panic"], nthreads()),
                 "C06" => check_seq("C06", tier),
@@ -418,6 +424,7 @@ fn main() {
                 "C16" => props_sched::c16_families(tier),
                 "C15" => props_sched::c15_families(tier),
                 "C01" => props_sched::c01_families(tier),
+                "C05" => props_sched::c05_families(tier),
                 _ => props_sched::c14_families(tier),
             };
             sut::set_quiet(true);
